@@ -122,4 +122,4 @@ func printResult(hr *interp.HarnessResult) {
 	}
 }
 
-func cmdSelftest(args []string) int { fmt.Println("not yet"); return 2 }
+
